@@ -540,6 +540,12 @@ def run(ctx):
         work.append(("bigreads", {"sizes_plain": [70000, 300000, 65000], "read_sizes": [1, 7, 1042, 4096, 65536, 100000, 262144, 524288]}))
     for gap in (31.0, 3600.0) if quick else (1.0, 29.0, 31.0, 61.0, 3600.0, 1e6):
         work.append(("cuts", {"msgs": [MSG_EVENT, MSG_SMALL, MSG_CHUNK2, MSG_204], "sizes": [37], "gap": gap}))
+    # the same through other legal spellings of the messages inside the session (field-name case, separator, hex case of chunk sizes): where a
+    # message ends - and so what is delivered from the decrypted stream - does not depend on them
+    spelled = [dict(MSG_EVENT, cl_name="content-length"), dict(MSG_SMALL, cl_name="CONTENT-LENGTH", sep=""), dict(MSG_CHUNK2, te_name="transfer-encoding", upper_hex=True), dict(MSG_204, sep="\t"), dict(MSG_CHUNK, te_name="TRANSFER-ENCODING")]
+    work.append(("cuts", {"msgs": spelled, "sizes": [37]}))
+    work.append(("framesplits", {"msgs": spelled[:3]}))
+    work.append(("graph", {"msgs": [dict(MSG_204, sep=""), dict(MSG_EVENT, cl_name="content-length")], "sizes": [29]}))
     work.append(("send_between", {"seq": [MSG_EVENT, MSG_SMALL, MSG_EVENT]}))
     work.append(("send_between", {"seq": [MSG_CHUNK2, MSG_CHUNK, MSG_CHUNK2]}))
     # corruption
